@@ -1,9 +1,589 @@
-(* C16 -- proofs about Model/FixFloat.v. *)
+(* C16 -- proofs about Model/FixFloat.v (binary64 via Flocq; reals via B2R). *)
 From Coq Require Import ZArith Reals List Bool Lia Lra.
-From Flocq Require Import Core BinarySingleNaN.
+From Flocq Require Import Core BinarySingleNaN Mult_error.
 Require Import Rig.Model.Base Rig.Model.FixFloat Rig.Spec.FixFloat.
 Import ListNotations.
 Open Scope Z_scope.
+
+Notation fexp64 := (FLT_exp (-1074) 53).
+Notation rnd64 := (round radix2 fexp64 ZnearestE).
+Notation fmt64 := (generic_format radix2 fexp64).
+Notation bpow2 := (bpow radix2).
+
+(* ------------------------------------------------------------------ reals / truncation *)
+Lemma Ztrunc_small : forall r : R, (Rabs r < 1)%R -> Ztrunc r = 0.
+Proof.
+  intros r Hr. apply Rabs_lt_inv in Hr. destruct Hr as [Hlo Hhi].
+  destruct (Rlt_or_le r 0) as [Hneg|Hpos].
+  - rewrite Ztrunc_ceil by lra. apply Zceil_imp. simpl. lra.
+  - rewrite Ztrunc_floor by lra. apply Zfloor_imp. simpl. lra.
+Qed.
+
+Lemma round_FIX0_trunc : forall r : R, round radix2 (FIX_exp 0) Ztrunc r = IZR (Ztrunc r).
+Proof.
+  intros r. unfold round, scaled_mantissa, cexp, FIX_exp, F2R. simpl.
+  rewrite !Rmult_1_r. reflexivity.
+Qed.
+
+Lemma Btrunc_Ztrunc : forall x : b64, Btrunc x = Ztrunc (B2R x).
+Proof.
+  intros x. apply eq_IZR. rewrite (Btrunc_correct 53 1024 prec64_lt_emax). apply round_FIX0_trunc.
+Qed.
+
+(* scaling a double by a power of two and rounding never changes the integer part: either the
+   product is again a double (exact), or it underflows and both are below one in magnitude *)
+Lemma trunc_round_scaled :
+  forall (r : R) (k : Z), fmt64 r -> Ztrunc (rnd64 (r * bpow2 k)) = Ztrunc (r * bpow2 k).
+Proof.
+  intros r k Fr.
+  destruct (Z_le_gt_dec (-1074 + 53 - mag radix2 r) k) as [Hk|Hk].
+  - rewrite round_generic; auto with typeclass_instances.
+    apply mult_bpow_exact_FLT; assumption.
+  - destruct (Req_dec r 0) as [Hz|Hnz].
+    { subst r. rewrite Rmult_0_l, round_0; auto with typeclass_instances. }
+    assert (Hsmall : (Rabs (r * bpow2 k) <= bpow2 (-1022))%R).
+    { rewrite Rabs_mult, (Rabs_pos_eq (bpow2 k)) by apply bpow_ge_0.
+      apply Rle_trans with (bpow2 (mag radix2 r) * bpow2 k)%R.
+      - apply Rmult_le_compat_r; [apply bpow_ge_0|]. apply Rlt_le, bpow_mag_gt.
+      - rewrite <- bpow_plus. apply bpow_le. lia. }
+    assert (Hb : (bpow2 (-1022) < 1)%R).
+    { change 1%R with (bpow2 0). apply bpow_lt. lia. }
+    rewrite !Ztrunc_small; auto.
+    + lra.
+    + apply Rle_lt_trans with (2 := Hb).
+      apply abs_round_le_generic; auto with typeclass_instances.
+      apply generic_format_FLT_bpow; [reflexivity | lia].
+Qed.
+
+(* ------------------------------------------------------------------ Python primitives *)
+Lemma bpow_lt_1024 : forall k, k <= 1023 -> (Rabs (bpow2 k) < bpow2 1024)%R.
+Proof. intros k Hk. rewrite Rabs_pos_eq by apply bpow_ge_0. apply bpow_lt. lia. Qed.
+
+Lemma py_pow2_spec :
+  forall k, -1074 <= k <= 1023 ->
+  exists s, py_pow2 k = Ok s /\ B2R s = bpow2 k /\ is_finite s = true.
+Proof.
+  intros k Hk. unfold py_pow2.
+  destruct (1024 <=? k) eqn:E; [apply Z.leb_le in E; lia|].
+  eexists; split; [reflexivity|].
+  generalize (Bldexp_correct 53 1024 prec64_gt_0 prec64_lt_emax mode_NE b64_one k).
+  unfold b64_one. rewrite Bone_correct, Rmult_1_l.
+  change (SpecFloat.fexp 53 1024) with fexp64. change (round_mode mode_NE) with ZnearestE.
+  rewrite round_generic; auto with typeclass_instances.
+  2:{ apply generic_format_FLT_bpow; [reflexivity|lia]. }
+  rewrite Rlt_bool_true by (apply bpow_lt_1024; lia).
+  intros (H1 & H2 & _). split; [exact H1|]. rewrite H2. apply is_finite_Bone.
+Qed.
+
+Lemma is_finite_not_overflow :
+  forall (z : b64) s, B2SF z = binary_overflow 53 1024 mode_NE s -> is_finite z = false.
+Proof. intros z s H. rewrite <- is_finite_SF_B2SF, H. reflexivity. Qed.
+
+Lemma py_int_finite : forall z : b64, is_finite z = true -> py_int z = Ok (Ztrunc (B2R z)).
+Proof. intros z Hz. rewrite <- Btrunc_Ztrunc. destruct z; try discriminate; reflexivity. Qed.
+
+(* the product with an exact power of two, when finite, has the integer part of the exact product *)
+Lemma mult_pow2_trunc :
+  forall (a b : b64) (r : R) (k : Z),
+    (B2R a * B2R b = r * bpow2 k)%R -> fmt64 r ->
+    is_finite (b64_mult a b) = true ->
+    Ztrunc (B2R (b64_mult a b)) = Ztrunc (r * bpow2 k).
+Proof.
+  intros a b r k Hab Fr Hfin. unfold b64_mult in *.
+  generalize (Bmult_correct 53 1024 prec64_gt_0 prec64_lt_emax mode_NE a b).
+  destruct (Rlt_bool _ _).
+  - intros (H1 & _). rewrite H1, Hab. apply trunc_round_scaled; assumption.
+  - intros H. apply is_finite_not_overflow in H. congruence.
+Qed.
+
+Lemma fp_bounds_ok :
+  forall signed n_bits, 1 <= n_bits ->
+    fp_bounds signed n_bits = Ok (fmt_min signed n_bits, fmt_max signed n_bits).
+Proof.
+  intros signed n_bits Hn. unfold fp_bounds, fmt_min, fmt_max. destruct signed.
+  - destruct (n_bits - 1 <? 0) eqn:E; [apply Z.ltb_lt in E; lia|].
+    f_equal. f_equal. lia.
+  - destruct (n_bits <? 0) eqn:E; [apply Z.ltb_lt in E; lia|]. reflexivity.
+Qed.
+
+(* ------------------------------------------------------------------ float_to_fp is the exact specification *)
+Lemma float_to_fp_exact :
+  forall signed n_bits n_frac (x : b64),
+    1 <= n_bits -> -1074 <= n_frac <= 1023 -> in_domain n_frac x ->
+    float_to_fp signed n_bits n_frac x = Ok (fp_spec signed n_bits n_frac (B2R x)).
+Proof.
+  intros signed n_bits n_frac x Hn Hf (Hx & s & Hs & Hfin).
+  destruct (py_pow2_spec n_frac Hf) as (s' & Hs' & Hrs & _).
+  rewrite Hs in Hs'. injection Hs' as <-.
+  unfold float_to_fp. rewrite fp_bounds_ok by assumption. simpl bind. rewrite Hs. simpl bind.
+  rewrite py_int_finite by assumption. simpl bind. unfold fp_spec. simpl fst. simpl snd.
+  f_equal. f_equal.
+  apply mult_pow2_trunc; try assumption.
+  - rewrite Hrs. apply Rmult_comm.
+  - apply (generic_format_B2R 53 1024).
+Qed.
+
+(* ------------------------------------------------------------------ consequences, on the specification *)
+Lemma fmt_min_le_max : forall signed n_bits, 1 <= n_bits -> fmt_min signed n_bits <= fmt_max signed n_bits.
+Proof.
+  intros signed n_bits Hn. unfold fmt_min, fmt_max.
+  assert (0 < 2 ^ (n_bits - 1)) by (apply Z.pow_pos_nonneg; lia).
+  assert (0 < 2 ^ n_bits) by (apply Z.pow_pos_nonneg; lia).
+  destruct signed; lia.
+Qed.
+
+Lemma clamp_in_range : forall lo hi i, lo <= hi -> lo <= clamp lo hi i <= hi.
+Proof. intros lo hi i H. unfold clamp. lia. Qed.
+
+Lemma clamp_mono : forall lo hi i j, i <= j -> clamp lo hi i <= clamp lo hi j.
+Proof. intros lo hi i j H. unfold clamp. lia. Qed.
+
+Lemma clamp_id : forall lo hi i, lo <= i <= hi -> clamp lo hi i = i.
+Proof. intros lo hi i H. unfold clamp. lia. Qed.
+
+Lemma fp_spec_in_range :
+  forall signed n_bits n_frac r, 1 <= n_bits ->
+    fmt_min signed n_bits <= fp_spec signed n_bits n_frac r <= fmt_max signed n_bits.
+Proof. intros. apply clamp_in_range, fmt_min_le_max; assumption. Qed.
+
+Lemma fp_spec_monotone :
+  forall signed n_bits n_frac r1 r2, (r1 <= r2)%R ->
+    fp_spec signed n_bits n_frac r1 <= fp_spec signed n_bits n_frac r2.
+Proof.
+  intros signed n_bits n_frac r1 r2 H. apply clamp_mono, Ztrunc_le.
+  apply Rmult_le_compat_r; [apply bpow_ge_0|assumption].
+Qed.
+
+Lemma fp_spec_representable :
+  forall signed n_bits n_frac r,
+    fmt_min signed n_bits <= Ztrunc (r * bpow2 n_frac) <= fmt_max signed n_bits ->
+    fp_spec signed n_bits n_frac r = Ztrunc (r * bpow2 n_frac).
+Proof. intros. apply clamp_id; assumption. Qed.
+
+Lemma fp_spec_saturates_high :
+  forall signed n_bits n_frac r, 1 <= n_bits ->
+    (IZR (fmt_max signed n_bits) <= r * bpow2 n_frac)%R ->
+    fp_spec signed n_bits n_frac r = fmt_max signed n_bits.
+Proof.
+  intros signed n_bits n_frac r Hn H. apply Ztrunc_le in H. rewrite Ztrunc_IZR in H.
+  pose proof (fmt_min_le_max signed n_bits Hn). unfold fp_spec, clamp. lia.
+Qed.
+
+Lemma fp_spec_saturates_low :
+  forall signed n_bits n_frac r, 1 <= n_bits ->
+    (r * bpow2 n_frac <= IZR (fmt_min signed n_bits))%R ->
+    fp_spec signed n_bits n_frac r = fmt_min signed n_bits.
+Proof.
+  intros signed n_bits n_frac r Hn H. apply Ztrunc_le in H. rewrite Ztrunc_IZR in H.
+  pose proof (fmt_min_le_max signed n_bits Hn). unfold fp_spec, clamp. lia.
+Qed.
+
+Lemma Ztrunc_within_one : forall y : R, (Rabs (IZR (Ztrunc y) - y) < 1)%R.
+Proof.
+  intros y. destruct (Rlt_or_le y 0) as [Hneg|Hpos].
+  - rewrite Ztrunc_ceil by lra. pose proof (Zceil_ub y). pose proof (Zceil_lb y).
+    apply Rabs_def1; lra.
+  - rewrite Ztrunc_floor by lra. pose proof (Zfloor_lb y). pose proof (Zfloor_ub y).
+    apply Rabs_def1; lra.
+Qed.
+
+Lemma Ztrunc_between : forall (lo hi : Z) (y : R), (IZR lo <= y <= IZR hi)%R -> lo <= Ztrunc y <= hi.
+Proof.
+  intros lo hi y [H1 H2]. apply Ztrunc_le in H1. apply Ztrunc_le in H2.
+  rewrite Ztrunc_IZR in H1, H2. lia.
+Qed.
+
+(* inside the range the result, read back as a real (v * 2^-n_frac), is less than one step 2^-n_frac
+   away from the input *)
+Lemma fp_spec_within_one_lsb :
+  forall signed n_bits n_frac r,
+    (IZR (fmt_min signed n_bits) <= r * bpow2 n_frac <= IZR (fmt_max signed n_bits))%R ->
+    (Rabs (IZR (fp_spec signed n_bits n_frac r) * bpow2 (- n_frac) - r) < bpow2 (- n_frac))%R.
+Proof.
+  intros signed n_bits n_frac r H.
+  rewrite fp_spec_representable by (apply Ztrunc_between; assumption).
+  set (y := (r * bpow2 n_frac)%R).
+  replace r with (y * bpow2 (- n_frac))%R.
+  2:{ unfold y. rewrite Rmult_assoc, <- bpow_plus. replace (n_frac + - n_frac) with 0 by lia. simpl. ring. }
+  rewrite <- Rmult_minus_distr_r, Rabs_mult, (Rabs_pos_eq (bpow2 (- n_frac))) by apply bpow_ge_0.
+  rewrite <- (Rmult_1_l (bpow2 (- n_frac))) at 2.
+  apply Rmult_lt_compat_r; [apply bpow_gt_0|]. apply Ztrunc_within_one.
+Qed.
+
+(* ------------------------------------------------------------------ the way back *)
+Lemma IZR_lt_bpow : forall v n, 0 <= n -> Z.abs v < 2 ^ n -> (Rabs (IZR v) < bpow2 n)%R.
+Proof.
+  intros v n Hn H. rewrite <- abs_IZR. replace (bpow2 n) with (IZR (2 ^ n)).
+  - apply IZR_lt; assumption.
+  - rewrite (IZR_Zpower radix2) by assumption. reflexivity.
+Qed.
+
+(* float(v) is exact when v is a double *)
+Lemma py_float_of_int_exact :
+  forall v, fmt64 (IZR v) -> (Rabs (IZR v) < bpow2 1024)%R ->
+  exists fv, py_float_of_int v = Ok fv /\ B2R fv = IZR v /\ is_finite fv = true.
+Proof.
+  intros v Fv Hlt. unfold py_float_of_int.
+  generalize (binary_normalize_correct 53 1024 prec64_gt_0 prec64_lt_emax mode_NE v 0 false).
+  cbv zeta. change (SpecFloat.fexp 53 1024) with fexp64. change (round_mode mode_NE) with ZnearestE.
+  replace (F2R (Float radix2 v 0)) with (IZR v) by (unfold F2R; simpl; ring).
+  rewrite round_generic by (auto with typeclass_instances).
+  rewrite Rlt_bool_true by assumption.
+  intros (H1 & H2 & _). rewrite H2. eexists; split; [reflexivity|]. split; assumption.
+Qed.
+
+Lemma b64_mult_exact :
+  forall (a b : b64), fmt64 (B2R a * B2R b) -> (Rabs (B2R a * B2R b) < bpow2 1024)%R ->
+    B2R (b64_mult a b) = (B2R a * B2R b)%R /\ is_finite (b64_mult a b) = is_finite a && is_finite b.
+Proof.
+  intros a b F Hlt. unfold b64_mult.
+  generalize (Bmult_correct 53 1024 prec64_gt_0 prec64_lt_emax mode_NE a b).
+  change (SpecFloat.fexp 53 1024) with fexp64. change (round_mode mode_NE) with ZnearestE.
+  rewrite round_generic by (auto with typeclass_instances).
+  rewrite Rlt_bool_true by assumption.
+  intros (H1 & H2 & _). split; assumption.
+Qed.
+
+Lemma fp_to_float_exact :
+  forall n_bits n_frac v,
+    1 <= n_bits <= 1024 -> -1022 <= n_frac <= 1022 -> n_bits - n_frac <= 1024 ->
+    Z.abs v < 2 ^ n_bits -> fmt64 (IZR v) ->
+    exists y, fp_to_float n_frac v = Ok y /\ B2R y = (IZR v * bpow2 (- n_frac))%R /\ is_finite y = true.
+Proof.
+  intros n_bits n_frac v Hn Hf Hnf Hv Fv.
+  assert (Hv1 : (Rabs (IZR v) < bpow2 n_bits)%R) by (apply IZR_lt_bpow; lia).
+  destruct (py_pow2_spec (- n_frac)) as (s & Hs & Hrs & Hsf); [lia|].
+  destruct (py_float_of_int_exact v Fv) as (fv & Hfv & Hrv & Hff).
+  { apply Rlt_le_trans with (1 := Hv1). apply bpow_le. lia. }
+  unfold fp_to_float. rewrite Hs. simpl bind. rewrite Hfv. simpl bind.
+  eexists; split; [reflexivity|].
+  destruct (b64_mult_exact fv s) as (H1 & H2).
+  - rewrite Hrv, Hrs.
+    destruct (Z.eq_dec v 0) as [->|Hnz]; [rewrite Rmult_0_l; apply generic_format_0|].
+    apply mult_bpow_exact_FLT; [assumption|].
+    assert (1 <= mag radix2 (IZR v)); [|lia].
+    apply mag_ge_bpow. simpl. rewrite <- abs_IZR. apply IZR_le. lia.
+  - rewrite Hrv, Hrs, Rabs_mult, (Rabs_pos_eq (bpow2 (- n_frac))) by apply bpow_ge_0.
+    apply Rlt_le_trans with (bpow2 n_bits * bpow2 (- n_frac))%R.
+    + apply Rmult_lt_compat_r; [apply bpow_gt_0|assumption].
+    + rewrite <- bpow_plus. apply bpow_le. lia.
+  - rewrite H1, H2, Hrv, Hrs, Hff, Hsf. split; reflexivity.
+Qed.
+
+Lemma representable_abs :
+  forall signed n_bits v, 1 <= n_bits -> representable signed n_bits v -> Z.abs v < 2 ^ n_bits.
+Proof.
+  intros signed n_bits v Hn. unfold representable, fmt_min, fmt_max.
+  assert (0 < 2 ^ (n_bits - 1)) by (apply Z.pow_pos_nonneg; lia).
+  assert (2 ^ n_bits = 2 * 2 ^ (n_bits - 1)).
+  { replace n_bits with (n_bits - 1 + 1) at 1 by lia. rewrite Z.pow_add_r by lia. lia. }
+  destruct signed; lia.
+Qed.
+
+Lemma roundtrip_exact :
+  forall signed n_bits n_frac v,
+    1 <= n_bits <= 1024 -> -1022 <= n_frac <= 1022 -> n_bits - n_frac <= 1024 ->
+    representable signed n_bits v -> fmt64 (IZR v) ->
+    roundtrip signed n_bits n_frac v = Ok v.
+Proof.
+  intros signed n_bits n_frac v Hn Hf Hnf Hrep Fv.
+  pose proof (representable_abs signed n_bits v ltac:(lia) Hrep) as Hv.
+  destruct (fp_to_float_exact n_bits n_frac v Hn Hf Hnf Hv Fv) as (y & Hy & Hry & Hyf).
+  unfold roundtrip. rewrite Hy. simpl bind.
+  assert (Hback : (B2R y * bpow2 n_frac = IZR v)%R).
+  { rewrite Hry, Rmult_assoc, <- bpow_plus. replace (- n_frac + n_frac) with 0 by lia. simpl. ring. }
+  rewrite float_to_fp_exact; [| lia | lia |].
+  - unfold fp_spec. rewrite Hback, Ztrunc_IZR. f_equal. apply clamp_id. exact Hrep.
+  - split; [assumption|].
+    destruct (py_pow2_spec n_frac) as (s & Hs & Hrs & Hsf); [lia|].
+    exists s. split; [assumption|].
+    destruct (b64_mult_exact s y) as (H1 & H2).
+    + rewrite Hrs, Rmult_comm, Hback. assumption.
+    + rewrite Hrs, Rmult_comm, Hback.
+      apply Rlt_le_trans with (bpow2 n_bits); [apply IZR_lt_bpow; lia|apply bpow_le; lia].
+    + rewrite H2, Hsf, Hyf. reflexivity.
+Qed.
+
+Lemma small_int_is_double : forall v, Z.abs v < 2 ^ 53 -> fmt64 (IZR v).
+Proof.
+  intros v Hv. replace (IZR v) with (F2R (Float radix2 v 0)) by (unfold F2R; simpl; ring).
+  apply generic_format_F2R. intros Hnz. unfold cexp, FLT_exp.
+  replace (F2R (Float radix2 v 0)) with (IZR v) by (unfold F2R; simpl; ring).
+  assert (mag radix2 (IZR v) <= 53); [|lia].
+  apply mag_le_bpow; [apply IZR_neq; assumption|]. apply IZR_lt_bpow; lia.
+Qed.
+
+Lemma roundtrip_small :
+  forall signed n_bits n_frac v,
+    1 <= n_bits <= 1024 -> -1022 <= n_frac <= 1022 -> n_bits - n_frac <= 1024 ->
+    representable signed n_bits v -> Z.abs v < 2 ^ 53 ->
+    roundtrip signed n_bits n_frac v = Ok v.
+Proof. intros. apply roundtrip_exact; try assumption. apply small_int_is_double; assumption. Qed.
+
+(* ------------------------------------------------------------------ numpy pieces over the reals *)
+Lemma np_max_spec :
+  forall a b : b64, is_finite a = true -> is_finite b = true ->
+    is_finite (np_max a b) = true /\ B2R (np_max a b) = Rmax (B2R a) (B2R b).
+Proof.
+  intros a b Ha Hb. unfold np_max.
+  assert (Hn : is_nan a = false) by (destruct a; try discriminate; reflexivity).
+  rewrite Hn, Bltb_correct by assumption.
+  destruct (Rlt_bool_spec (B2R b) (B2R a)) as [H|H].
+  - split; [assumption|]. rewrite Rmax_left; lra.
+  - split; [assumption|]. rewrite Rmax_right; lra.
+Qed.
+
+Lemma np_min_spec :
+  forall a b : b64, is_finite a = true -> is_finite b = true ->
+    is_finite (np_min a b) = true /\ B2R (np_min a b) = Rmin (B2R a) (B2R b).
+Proof.
+  intros a b Ha Hb. unfold np_min.
+  assert (Hn : is_nan a = false) by (destruct a; try discriminate; reflexivity).
+  rewrite Hn, Bltb_correct by assumption.
+  destruct (Rlt_bool_spec (B2R a) (B2R b)) as [H|H].
+  - split; [assumption|]. rewrite Rmin_left; lra.
+  - split; [assumption|]. rewrite Rmin_right; lra.
+Qed.
+
+Lemma np_clip_spec :
+  forall x lo hi : b64, is_finite x = true -> is_finite lo = true -> is_finite hi = true ->
+    is_finite (np_clip x lo hi) = true /\
+    B2R (np_clip x lo hi) = Rmin (Rmax (B2R x) (B2R lo)) (B2R hi).
+Proof.
+  intros x lo hi Hx Hlo Hhi. unfold np_clip.
+  destruct (np_max_spec x lo Hx Hlo) as (H1 & H2).
+  destruct (np_min_spec _ hi H1 Hhi) as (H3 & H4).
+  split; [assumption|]. rewrite H4, H2. reflexivity.
+Qed.
+
+Lemma finite_not_nan : forall z : b64, is_finite z = true -> is_nan z = false.
+Proof. intros z; destruct z; try discriminate; reflexivity. Qed.
+
+(* float(v) in general: the correctly rounded value *)
+Lemma py_float_of_int_round :
+  forall v n, 0 <= n <= 1023 -> Z.abs v <= 2 ^ n ->
+  exists fv, py_float_of_int v = Ok fv /\ B2R fv = rnd64 (IZR v) /\ is_finite fv = true.
+Proof.
+  intros v n Hn Hv. unfold py_float_of_int.
+  generalize (binary_normalize_correct 53 1024 prec64_gt_0 prec64_lt_emax mode_NE v 0 false).
+  cbv zeta. change (SpecFloat.fexp 53 1024) with fexp64. change (round_mode mode_NE) with ZnearestE.
+  replace (F2R (Float radix2 v 0)) with (IZR v) by (unfold F2R; simpl; ring).
+  rewrite Rlt_bool_true.
+  - intros (H1 & H2 & _). rewrite H2. eexists; split; [reflexivity|]. split; assumption.
+  - apply Rle_lt_trans with (bpow2 n); [|apply bpow_lt; lia].
+    apply abs_round_le_generic; auto with typeclass_instances.
+    + apply generic_format_FLT_bpow; [reflexivity|lia].
+    + rewrite <- abs_IZR. replace (bpow2 n) with (IZR (2 ^ n)).
+      * apply IZR_le; assumption.
+      * rewrite (IZR_Zpower radix2) by lia. reflexivity.
+Qed.
+
+Lemma py_float_of_int_val :
+  forall v fv, py_float_of_int v = Ok fv ->
+    fv = binary_normalize 53 1024 prec64_gt_0 prec64_lt_emax mode_NE v 0 false.
+Proof. unfold py_float_of_int. intros v fv H. destruct (is_finite _) in H; congruence. Qed.
+
+Lemma IZR_pow2 : forall k, 0 <= k -> IZR (2 ^ k) = bpow2 k.
+Proof. intros k Hk. rewrite (IZR_Zpower radix2) by assumption. reflexivity. Qed.
+
+Lemma fmt64_neg_pow2 : forall k, 0 <= k -> fmt64 (IZR (- 2 ^ k)).
+Proof.
+  intros k Hk. rewrite opp_IZR, IZR_pow2 by assumption.
+  apply generic_format_opp, generic_format_FLT_bpow; [reflexivity|lia].
+Qed.
+
+(* the largest value of a format rounds to itself or up, never down *)
+Lemma b2sf_round_54 :
+  B2SF (binary_normalize 53 1024 prec64_gt_0 prec64_lt_emax mode_NE (2 ^ 54 - 1) 0 false)
+  = SpecFloat.S754_finite false 4503599627370496 2.
+Proof. vm_compute. reflexivity. Qed.
+
+Lemma max_le_round : forall k, 0 <= k <= 1023 -> (IZR (2 ^ k - 1) <= rnd64 (IZR (2 ^ k - 1)))%R.
+Proof.
+  intros k Hk.
+  assert (Hpos : 0 < 2 ^ k) by (apply Z.pow_pos_nonneg; lia).
+  destruct (Z_le_gt_dec k 53) as [H53|H53].
+  { rewrite round_generic; auto with typeclass_instances; [lra|].
+    apply small_int_is_double.
+    assert (2 ^ k <= 2 ^ 53) by (apply Z.pow_le_mono_r; lia). lia. }
+  destruct (Z.eq_dec k 54) as [->|H54].
+  { destruct (py_float_of_int_round (2 ^ 54 - 1) 54) as (fv & Hfv & Hr & Hfin); [lia|lia|].
+    rewrite <- Hr, (py_float_of_int_val _ _ Hfv).
+    rewrite <- (SF2R_B2SF 53 1024), b2sf_round_54. unfold SF2R, F2R. simpl.
+    lra. }
+  apply Rle_trans with (bpow2 k).
+  { rewrite minus_IZR, IZR_pow2 by lia. lra. }
+  apply round_N_ge_midp; auto with typeclass_instances.
+  { apply generic_format_FLT_bpow; [reflexivity|lia]. }
+  rewrite pred_bpow. unfold FLT_exp. rewrite Z.max_l by lia.
+  rewrite minus_IZR, IZR_pow2 by lia.
+  assert (bpow2 2 <= bpow2 (k - 53))%R by (apply bpow_le; lia).
+  simpl in *. lra.
+Qed.
+
+Lemma b64_mult_finite_inv :
+  forall a b : b64, is_finite (b64_mult a b) = true ->
+    (Rabs (rnd64 (B2R a * B2R b)) < bpow2 1024)%R /\ is_finite a = true /\ is_finite b = true.
+Proof.
+  intros a b Hfin. unfold b64_mult in Hfin.
+  generalize (Bmult_correct 53 1024 prec64_gt_0 prec64_lt_emax mode_NE a b).
+  change (SpecFloat.fexp 53 1024) with fexp64. change (round_mode mode_NE) with ZnearestE.
+  destruct (Rlt_bool_spec (Rabs (rnd64 (B2R a * B2R b))) (bpow2 1024)) as [Hlt|Hge].
+  - intros (_ & H2 & _). rewrite Hfin in H2. symmetry in H2. apply andb_true_iff in H2. tauto.
+  - intros H. apply is_finite_not_overflow in H. congruence.
+Qed.
+
+Lemma b64_mult_spec :
+  forall a b : b64, (Rabs (rnd64 (B2R a * B2R b)) < bpow2 1024)%R ->
+    B2R (b64_mult a b) = rnd64 (B2R a * B2R b) /\
+    is_finite (b64_mult a b) = is_finite a && is_finite b.
+Proof.
+  intros a b Hlt. unfold b64_mult.
+  generalize (Bmult_correct 53 1024 prec64_gt_0 prec64_lt_emax mode_NE a b).
+  change (SpecFloat.fexp 53 1024) with fexp64. change (round_mode mode_NE) with ZnearestE.
+  rewrite Rlt_bool_true by assumption. intros (H1 & H2 & _). split; assumption.
+Qed.
+
+Lemma Ztrunc_Rmax : forall a b : R, Ztrunc (Rmax a b) = Z.max (Ztrunc a) (Ztrunc b).
+Proof.
+  intros a b. destruct (Rle_or_lt a b) as [H|H].
+  - rewrite Rmax_right by assumption. apply Ztrunc_le in H. lia.
+  - rewrite Rmax_left by lra. apply Rlt_le, Ztrunc_le in H. lia.
+Qed.
+
+Lemma Ztrunc_Rmin : forall a b : R, Ztrunc (Rmin a b) = Z.min (Ztrunc a) (Ztrunc b).
+Proof.
+  intros a b. destruct (Rle_or_lt a b) as [H|H].
+  - rewrite Rmin_left by assumption. apply Ztrunc_le in H. lia.
+  - rewrite Rmin_right by lra. apply Rlt_le, Ztrunc_le in H. lia.
+Qed.
+
+Lemma fmt_min_lt_max : forall signed n_bits, 1 <= n_bits -> fmt_min signed n_bits < fmt_max signed n_bits.
+Proof.
+  intros signed n_bits Hn. unfold fmt_min, fmt_max.
+  assert (0 < 2 ^ (n_bits - 1)) by (apply Z.pow_pos_nonneg; lia).
+  assert (2 ^ n_bits = 2 * 2 ^ (n_bits - 1)).
+  { replace n_bits with (n_bits - 1 + 1) at 1 by lia. rewrite Z.pow_add_r by lia. lia. }
+  destruct signed; lia.
+Qed.
+
+Lemma wrap_int_id :
+  forall signed n_bits z, 1 <= n_bits ->
+    fmt_min signed n_bits <= z <= fmt_max signed n_bits -> wrap_int signed n_bits z = z.
+Proof.
+  intros signed n_bits z Hn. unfold fmt_min, fmt_max, wrap_int.
+  assert (0 < 2 ^ (n_bits - 1)) by (apply Z.pow_pos_nonneg; lia).
+  assert (2 ^ n_bits = 2 * 2 ^ (n_bits - 1)).
+  { replace n_bits with (n_bits - 1 + 1) at 1 by lia. rewrite Z.pow_add_r by lia. lia. }
+  destruct signed; intros Hz.
+  - rewrite Z.mod_small by lia. lia.
+  - apply Z.mod_small. lia.
+Qed.
+
+(* clip against the rounded bounds, flag, cast: the element the repaired array converter returns *)
+Lemma np_elem_generic :
+  forall signed n_bits (y lo hi : b64),
+    1 <= n_bits ->
+    is_finite y = true -> is_finite lo = true -> is_finite hi = true ->
+    B2R lo = IZR (fmt_min signed n_bits) ->
+    B2R hi = rnd64 (IZR (fmt_max signed n_bits)) ->
+    (IZR (fmt_max signed n_bits) <= B2R hi)%R ->
+    is_nan (np_clip y lo hi) = false /\
+    (if Bleb hi (np_clip y lo hi) then fmt_max signed n_bits else np_cast signed n_bits (np_clip y lo hi))
+    = clamp (fmt_min signed n_bits) (fmt_max signed n_bits) (Ztrunc (B2R y)).
+Proof.
+  intros signed n_bits y lo hi Hn Hy Hlo Hhi HL HH HMH.
+  destruct (np_clip_spec y lo hi Hy Hlo Hhi) as (Hcf & HC).
+  split; [apply finite_not_nan; assumption|].
+  pose proof (fmt_min_lt_max signed n_bits Hn) as Hlt. apply IZR_lt in Hlt.
+  pose proof (fmt_min_lt_max signed n_bits Hn) as HltZ.
+  rewrite Bleb_correct by assumption.
+  set (c := np_clip y lo hi) in *. set (mn := fmt_min signed n_bits) in *. set (mx := fmt_max signed n_bits) in *.
+  destruct (Rle_bool_spec (B2R hi) (B2R c)) as [Hsat|Hns].
+  - (* saturated *)
+    assert (HY : (IZR mx <= B2R y)%R).
+    { rewrite HC, HL in Hsat. unfold Rmin, Rmax in Hsat.
+      destruct (Rle_dec (B2R y) (IZR mn)); destruct (Rle_dec _ (B2R hi)); lra. }
+    apply Ztrunc_le in HY. rewrite Ztrunc_IZR in HY. unfold clamp. lia.
+  - (* not saturated: the clipped value is a double below the rounded bound, hence at most max *)
+    assert (HCM : (B2R c <= IZR mx)%R).
+    { destruct (Rle_or_lt (B2R c) (IZR mx)) as [H|H]; [assumption|exfalso].
+      assert (B2R hi <= B2R c)%R; [|lra].
+      rewrite HH. apply round_le_generic; auto with typeclass_instances.
+      - apply (generic_format_B2R 53 1024).
+      - lra. }
+    assert (HCeq : B2R c = Rmax (B2R y) (IZR mn)).
+    { rewrite HC, HL in *. unfold Rmin in *. destruct (Rle_dec _ (B2R hi)); [reflexivity|lra]. }
+    assert (HCL : (IZR mn <= B2R c)%R) by (rewrite HCeq; apply Rmax_r).
+    assert (Hin : mn <= Ztrunc (B2R c) <= mx) by (apply Ztrunc_between; split; assumption).
+    unfold np_cast. rewrite Btrunc_Ztrunc, wrap_int_id by assumption.
+    rewrite HCeq, Ztrunc_Rmax, Ztrunc_IZR in *. unfold clamp. lia.
+Qed.
+
+Lemma np_init_ok :
+  forall signed n_bits, n_bits = 8 \/ n_bits = 16 \/ n_bits = 32 \/ n_bits = 64 ->
+    np_init signed n_bits = Ok (fmt_min signed n_bits, fmt_max signed n_bits).
+Proof. intros signed n_bits [-> | [-> | [-> | ->]]]; reflexivity. Qed.
+
+Lemma fmt_bounds_floats :
+  forall signed n_bits, 1 <= n_bits <= 1023 ->
+    (exists lo, py_float_of_int (fmt_min signed n_bits) = Ok lo /\ is_finite lo = true /\
+                B2R lo = IZR (fmt_min signed n_bits)) /\
+    (exists hi, py_float_of_int (fmt_max signed n_bits) = Ok hi /\ is_finite hi = true /\
+                B2R hi = rnd64 (IZR (fmt_max signed n_bits)) /\
+                (IZR (fmt_max signed n_bits) <= B2R hi)%R).
+Proof.
+  intros signed n_bits Hn.
+  assert (Hp1 : 0 < 2 ^ (n_bits - 1)) by (apply Z.pow_pos_nonneg; lia).
+  assert (Hp : 2 ^ n_bits = 2 * 2 ^ (n_bits - 1)).
+  { replace n_bits with (n_bits - 1 + 1) at 1 by lia. rewrite Z.pow_add_r by lia. lia. }
+  split.
+  - destruct (py_float_of_int_exact (fmt_min signed n_bits)) as (lo & H1 & H2 & H3).
+    + unfold fmt_min. destruct signed; [apply fmt64_neg_pow2; lia|apply generic_format_0].
+    + apply Rlt_le_trans with (bpow2 n_bits); [|apply bpow_le; lia].
+      apply IZR_lt_bpow; [lia|]. unfold fmt_min. destruct signed; lia.
+    + exists lo. tauto.
+  - destruct (py_float_of_int_round (fmt_max signed n_bits) n_bits) as (hi & H1 & H2 & H3).
+    + lia.
+    + unfold fmt_max. destruct signed; lia.
+    + exists hi. repeat split; try assumption.
+      rewrite H2. unfold fmt_max. destruct signed; apply max_le_round; lia.
+Qed.
+
+Lemma numpy_agrees_generic :
+  forall signed n_bits n_frac (x : b64),
+    1 <= n_bits <= 1023 -> -1074 <= n_frac <= 1023 -> in_domain n_frac x ->
+    bind (np_scaled_clipped n_frac (fmt_min signed n_bits) (fmt_max signed n_bits) x) (fun cs =>
+      if is_nan (fst cs) then Failed 99
+      else Ok (if snd cs then fmt_max signed n_bits else np_cast signed n_bits (fst cs)))
+    = Ok (fp_spec signed n_bits n_frac (B2R x)).
+Proof.
+  intros signed n_bits n_frac x Hn Hf (Hx & s & Hs & Hfin).
+  destruct (py_pow2_spec n_frac Hf) as (s' & Hs' & Hrs & Hsf).
+  rewrite Hs in Hs'. injection Hs' as <-.
+  destruct (b64_mult_finite_inv s x Hfin) as (Hlt & _ & _).
+  rewrite Rmult_comm in Hlt.
+  destruct (b64_mult_spec x s Hlt) as (Hy & Hyf). rewrite Hx, Hsf in Hyf. simpl in Hyf.
+  destruct (fmt_bounds_floats signed n_bits Hn) as ((lo & Hlo & Hlof & HL) & (hi & Hhi & Hhif & HH & HMH)).
+  unfold np_scaled_clipped. rewrite Hs. simpl bind. rewrite Hlo. simpl bind. rewrite Hhi. simpl bind.
+  simpl fst. simpl snd.
+  destruct (np_elem_generic signed n_bits (b64_mult x s) lo hi ltac:(lia) Hyf Hlof Hhif HL HH HMH) as (Hnan & Heq).
+  rewrite Hnan, Heq. f_equal. unfold fp_spec. f_equal.
+  rewrite Hy, Hrs. apply trunc_round_scaled. apply (generic_format_B2R 53 1024).
+Qed.
+
+Lemma numpy_agrees :
+  forall signed n_bits n_frac (x : b64),
+    n_bits = 8 \/ n_bits = 16 \/ n_bits = 32 \/ n_bits = 64 ->
+    -1074 <= n_frac <= 1023 -> in_domain n_frac x ->
+    np_float_to_fix signed n_bits n_frac x = float_to_fp signed n_bits n_frac x.
+Proof.
+  intros signed n_bits n_frac x Hn Hf Hd.
+  assert (Hn' : 1 <= n_bits <= 1023) by lia.
+  rewrite float_to_fp_exact by (assumption || lia).
+  unfold np_float_to_fix. rewrite np_init_ok by assumption. simpl bind. simpl fst. simpl snd.
+  apply numpy_agrees_generic; assumption.
+Qed.
 
 (* ------------------------------------------------------------------ refutations by evaluation *)
 Definition x_1e30 : b64 := b64_of_bits 0x46293e5939a08cea.
@@ -26,3 +606,108 @@ Proof. vm_compute. repeat split; reflexivity. Qed.
 Lemma roundtrip_refuted :
   representable true 64 (2 ^ 53 + 1) /\ roundtrip true 64 0 (2 ^ 53 + 1) = Ok (2 ^ 53).
 Proof. split; [ unfold representable; vm_compute; split; discriminate | vm_compute; reflexivity ]. Qed.
+
+(* ------------------------------------------------------------------ the property's sentences for float_to_fp *)
+Lemma fp_in_range :
+  forall signed n_bits n_frac (x : b64) v,
+    1 <= n_bits -> -1074 <= n_frac <= 1023 -> in_domain n_frac x ->
+    float_to_fp signed n_bits n_frac x = Ok v ->
+    fmt_min signed n_bits <= v <= fmt_max signed n_bits.
+Proof.
+  intros signed n_bits n_frac x v Hn Hf Hd H.
+  rewrite float_to_fp_exact in H by assumption. injection H as <-.
+  apply fp_spec_in_range; assumption.
+Qed.
+
+Lemma fp_monotone :
+  forall signed n_bits n_frac (x y : b64) vx vy,
+    1 <= n_bits -> -1074 <= n_frac <= 1023 -> in_domain n_frac x -> in_domain n_frac y ->
+    (B2R x <= B2R y)%R ->
+    float_to_fp signed n_bits n_frac x = Ok vx -> float_to_fp signed n_bits n_frac y = Ok vy ->
+    vx <= vy.
+Proof.
+  intros signed n_bits n_frac x y vx vy Hn Hf Hdx Hdy Hle Hx Hy.
+  rewrite float_to_fp_exact in Hx, Hy by assumption. injection Hx as <-. injection Hy as <-.
+  apply fp_spec_monotone; assumption.
+Qed.
+
+Lemma fp_truncates :
+  forall signed n_bits n_frac (x : b64),
+    1 <= n_bits -> -1074 <= n_frac <= 1023 -> in_domain n_frac x ->
+    fmt_min signed n_bits <= Ztrunc (B2R x * bpow2 n_frac) <= fmt_max signed n_bits ->
+    float_to_fp signed n_bits n_frac x = Ok (Ztrunc (B2R x * bpow2 n_frac)).
+Proof.
+  intros signed n_bits n_frac x Hn Hf Hd H.
+  rewrite float_to_fp_exact by assumption. f_equal. apply fp_spec_representable; assumption.
+Qed.
+
+Lemma fp_saturates :
+  forall signed n_bits n_frac (x : b64),
+    1 <= n_bits -> -1074 <= n_frac <= 1023 -> in_domain n_frac x ->
+    ((IZR (fmt_max signed n_bits) <= B2R x * bpow2 n_frac)%R ->
+       float_to_fp signed n_bits n_frac x = Ok (fmt_max signed n_bits)) /\
+    ((B2R x * bpow2 n_frac <= IZR (fmt_min signed n_bits))%R ->
+       float_to_fp signed n_bits n_frac x = Ok (fmt_min signed n_bits)).
+Proof.
+  intros signed n_bits n_frac x Hn Hf Hd.
+  rewrite float_to_fp_exact by assumption. split; intros H; f_equal.
+  - apply fp_spec_saturates_high; assumption.
+  - apply fp_spec_saturates_low; assumption.
+Qed.
+
+Lemma fp_within_one_lsb :
+  forall signed n_bits n_frac (x : b64),
+    1 <= n_bits -> -1074 <= n_frac <= 1023 -> in_domain n_frac x ->
+    (IZR (fmt_min signed n_bits) <= B2R x * bpow2 n_frac <= IZR (fmt_max signed n_bits))%R ->
+    exists v, float_to_fp signed n_bits n_frac x = Ok v /\
+              (Rabs (IZR v * bpow2 (- n_frac) - B2R x) < bpow2 (- n_frac))%R.
+Proof.
+  intros signed n_bits n_frac x Hn Hf Hd H.
+  eexists; split; [apply float_to_fp_exact; assumption|].
+  apply fp_spec_within_one_lsb; assumption.
+Qed.
+
+Lemma fp_scale_overflow :
+  forall signed n_bits n_frac (x : b64),
+    1 <= n_bits -> 1024 <= n_frac -> float_to_fp signed n_bits n_frac x = OtherError.
+Proof.
+  intros signed n_bits n_frac x Hn Hf. unfold float_to_fp.
+  rewrite fp_bounds_ok by assumption. simpl bind. unfold py_pow2.
+  destruct (1024 <=? n_frac) eqn:E; [reflexivity|apply Z.leb_gt in E; lia].
+Qed.
+
+Lemma fp_nonfinite_error :
+  forall signed n_bits n_frac (x : b64) scale,
+    py_pow2 n_frac = Ok scale -> is_finite (b64_mult scale x) = false ->
+    float_to_fp signed n_bits n_frac x = OtherError.
+Proof.
+  intros signed n_bits n_frac x scale Hs Hnf. unfold float_to_fp.
+  assert (Hb : fp_bounds signed n_bits = OtherError \/ exists b, fp_bounds signed n_bits = Ok b).
+  { unfold fp_bounds. destruct signed.
+    - destruct (n_bits - 1 <? 0); [left; reflexivity|right; eexists; reflexivity].
+    - destruct (n_bits <? 0); [left; reflexivity|right; eexists; reflexivity]. }
+  destruct Hb as [-> | (b & ->)]; [reflexivity|].
+  simpl bind. rewrite Hs. simpl bind.
+  destruct (b64_mult scale x); try discriminate; reflexivity.
+Qed.
+
+Lemma roundtrip_upto_53_bits :
+  forall signed n_bits n_frac v,
+    1 <= n_bits <= 53 -> -1022 <= n_frac <= 1022 -> n_bits - n_frac <= 1024 ->
+    representable signed n_bits v -> roundtrip signed n_bits n_frac v = Ok v.
+Proof.
+  intros signed n_bits n_frac v Hn Hf Hnf Hrep.
+  apply roundtrip_small; try assumption; try lia.
+  pose proof (representable_abs signed n_bits v ltac:(lia) Hrep).
+  assert (2 ^ n_bits <= 2 ^ 53) by (apply Z.pow_le_mono_r; lia). lia.
+Qed.
+
+Lemma domain_inhabited :
+  in_domain 4 (b64_of_bits 0x3fe0000000000000) /\
+  float_to_fp true 8 4 (b64_of_bits 0x3fe0000000000000) = Ok 8 /\
+  in_domain 0 x_1e30 /\ in_domain (-4) (b64_of_bits 1) /\
+  float_to_fp true 8 (-4) (b64_of_bits 1) = Ok 0.
+Proof.
+  unfold in_domain. repeat split; try (vm_compute; reflexivity);
+    (eexists; split; [reflexivity|vm_compute; reflexivity]).
+Qed.
